@@ -2,10 +2,10 @@ package sym
 
 import (
 	"fmt"
-	"os"
 	"go/token"
 	"go/types"
 	"math/big"
+	"os"
 
 	"golang.org/x/tools/go/ssa"
 )
@@ -502,9 +502,16 @@ func (st *State) convert(v Value, from, to types.Type) Value {
 			if !t.Const {
 				st.unsupported("[]byte(symbolic string)")
 			}
-			el := make([]Value, len(t.CS))
-			for i := 0; i < len(t.CS); i++ {
-				el[i] = st.E.intTerm(big.NewInt(int64(t.CS[i])), sl.Elem())
+			var el []Value
+			if b, ok := sl.Elem().Underlying().(*types.Basic); ok && b.Kind() == types.Int32 {
+				// []rune(s)
+				for _, r := range t.CS {
+					el = append(el, st.E.intTerm(big.NewInt(int64(r)), sl.Elem()))
+				}
+			} else {
+				for i := 0; i < len(t.CS); i++ {
+					el = append(el, st.E.intTerm(big.NewInt(int64(t.CS[i])), sl.Elem()))
+				}
 			}
 			if len(el) == 0 {
 				return &SliceV{}
@@ -973,7 +980,12 @@ func (st *State) builtin(fr *frame, b *ssa.Builtin, args []Value, c *ssa.CallCom
 		case *SliceV:
 			add = st.sliceElems(a)
 		case *Term:
-			st.unsupported("append(bytes, string...)")
+			if !a.Const || a.Sort != SString {
+				st.unsupported("append(bytes, symbolic string...)")
+			}
+			for i := 0; i < len(a.CS); i++ {
+				add = append(add, st.E.intTerm(big.NewInt(int64(a.CS[i])), types.Typ[types.Uint8]))
+			}
 		}
 		if len(add) == 0 {
 			return s
